@@ -164,6 +164,9 @@ func (e *Explorer) Branch(c *Term, where string) bool {
 	}
 	if debugBr {
 		fmt.Fprintf(os.Stderr, "    br %s t=%v f=%v q=%d\n", where, rt, rf, e.s.Queries)
+		if os.Getenv("DEBUGBR") == "2" && rf != "unsat" {
+			fmt.Fprintf(os.Stderr, "       cond: %s\n", c.Dump(6))
+		}
 	}
 	if rf == "unsat" {
 		e.trace = append(e.trace, tr{K: 0, V: 1})
